@@ -138,6 +138,11 @@ func RunOne(t *testing.T, prop *Prop, tape *core.Tape, opts RunOpts) (res *RunRe
 		}
 		s.Kill()
 		setPools(nil)
+		if st == core.Done {
+			// tables of a cleanly finished run are dead and can be reused
+			s.Release()
+			w.pools.recycle()
+		}
 	})
 	if opts.KeepTape {
 		res.Tape = tape.Values()
